@@ -763,3 +763,14 @@ Proof.
   unfold chain_state, funding_depth, double_spent_depth, closing_depth.
   intros [H | H]; rewrite H; destruct (mutual_h s), (unilateral_h s); reflexivity.
 Qed.
+
+(** restarts are transparent: the monitor persists everything its behaviour depends on *)
+Lemma restore_persist m : restore (persist m) = m.
+Proof. destruct m; reflexivity. Qed.
+Theorem restarts_transparent fx g rops : forall m, run_r fx g m rops = run fx g m (deliveries rops).
+Proof.
+  induction rops as [|[o|] r IH]; intros m; cbn [run_r deliveries run].
+  - reflexivity.
+  - destruct (mstep fx g m o) as [m'|]; cbn [bind]; [apply IH | reflexivity].
+  - rewrite restore_persist. apply IH.
+Qed.
